@@ -82,6 +82,19 @@ def pinned_cases(lf, tier):
                 c["tag"] += "+range"
             else:
                 idx += 1
+    # permission bits without write access (vendored 0444 sources): a formatted file is not written at all, so the
+    # bits do not matter; whether an unformatted one can be written is the kernel's decision (root may), not the bits'
+    for n_, seq in enumerate((["F"], ["U"], ["F", "U"], ["U", "F"], ["F", "P"], ["P", "F"], ["F", "F"], ["F", "U", "P"], ["V", "F"], ["F", "X"])):
+        for as_dir in (False, True):
+            if as_dir and any(c_ not in DIR_CLASSES for c_ in seq):
+                continue
+            add(seq, as_dir=as_dir)
+            c = cases[-1]
+            lua = [rel for rel, spec in c["files"].items() if not isinstance(spec, dict) or "b64" in spec]
+            lua = [rel for rel in lua if rel.endswith((".lua", ".luau"))]
+            which = lua if n_ % 2 == 0 else lua[:1]
+            c["modes"] = {rel: ["444", "400", "555"][(n_ + k_) % 3] for k_, rel in enumerate(which)}
+            c["tag"] += "+readonly-bits"
     for v in range(4):
         for t in THREADS:
             if tier == "thorough" or (v + t) % 2 == 0:
